@@ -3,12 +3,12 @@ module verif/harness
 go 1.19
 
 require (
+	github.com/alecthomas/participle/v2 v2.1.4
 	github.com/charmbracelet/log v0.4.1
 	github.com/flamego/flamego v0.0.0
 )
 
 require (
-	github.com/alecthomas/participle/v2 v2.1.4 // indirect
 	github.com/aymanbagabas/go-osc52/v2 v2.0.1 // indirect
 	github.com/charmbracelet/lipgloss v1.0.0 // indirect
 	github.com/charmbracelet/x/ansi v0.4.2 // indirect
